@@ -309,20 +309,26 @@ namespace vf
             else if ((p = err.find("runtime error: ")) != std::string::npos)
             {
                 std::string rest = err.substr(p + 15, 60);
-                std::string words;
+                // first three words of the message that are not numbers / addresses (those vary from run to run)
+                std::string words, cur;
                 int nw = 0;
+                rest += ' ';
                 for (char ch : rest)
                 {
-                    if (ch == '\n')
-                        break;
-                    if (ch == ' ')
+                    if (ch == '\n' || ch == ' ')
                     {
-                        if (++nw == 3)
+                        if (!cur.empty() && !isdigit((unsigned char)cur[0]) && cur[0] != '-' && cur[0] != '+')
+                        {
+                            words += (nw ? "-" : "") + cur;
+                            if (++nw == 3)
+                                break;
+                        }
+                        cur.clear();
+                        if (ch == '\n')
                             break;
-                        words += '-';
                     }
-                    else if (isalnum((unsigned char)ch))
-                        words += ch;
+                    else if (isalnum((unsigned char)ch) || ch == '-' || ch == '+')
+                        cur += ch;
                 }
                 kind = "ubsan-" + words;
                 // the reporting location itself
